@@ -66,6 +66,8 @@ func reachesWithout(from ssa.Instruction, target, blocker func(ssa.Instruction) 
 }
 
 func runC17(c *Ctx) {
+	c.Rule("R6", "memory of an object recycled through a sync.Pool never leaves its Get/Put window (returned, stored outside the function, sent)", 1)
+	poolEscapes(c, "R6", []string{"server", "protocol", "gossip", "consensus"})
 	p := c.P
 	c.Rule("R1", "one unconditional send per FSM snapshot, each a distinct copy; single sender", 2)
 	c.Rule("R2", "batcher: flush test before append, fresh batch after every publish, non-empty timer flush, snapshot always appended", 5)
